@@ -228,6 +228,11 @@ func IsValidBucketName(bucket string, debug bool) bool {
 		debuglogger.Logf("invalid bucket name: %v\n", bucket)
 		return false
 	}
+	// Checks not to contain two adjacent periods
+	if strings.Contains(bucket, "..") {
+		debuglogger.Logf("bucket name contains adjacent periods: %v\n", bucket)
+		return false
+	}
 	// Checks not to be a valid IP address
 	if bucketNameIpRegexp.MatchString(bucket) {
 		debuglogger.Logf("bucket name is an ip address: %v\n", bucket)
